@@ -689,8 +689,9 @@ def run(ctx):
     # ---- R08n (C03 R03i): the characters of a chars node come back as they are
     ctx.rule('R08o', 'chars_node_to_text returns the node\'s text itself on every path except the documented one that drops '
                      'whitespace-only text when between-latex-constructs is off: the blanks and line breaks between two encoded '
-                     'characters are part of the text that must come back (C03 R03i)', 2)
-    _core.run_proxied(ctx, _c03, 'R08o', ('R03i',))
+                     'characters are part of the text that must come back; nodelist_to_text appends the rendering of every node in '
+                     'order and changes the text of a chars node that follows a macro in no way (C03 R03i, R03h)', 2)
+    _core.run_proxied(ctx, _c03, 'R08o', ('R03i', 'R03h'))
 
     # ---- R08j: specials made of characters the encoder copies through
     ctx.rule('R08j', 'a specials sequence of the default walker table whose characters the default encoder all copies '
